@@ -73,8 +73,17 @@ TraceSidChain ==
      ("C14" \in Lens) => /\ ~e.panic
                          /\ ~e.nil => e.sidok /\ (e.proto = 4 => e.siaddrok)
 
+(* the same through the loader: plugins.LoadPlugins on a configuration listing one plugin under one protocol *)
+(* (supported or not), then datagrams through HandleMsg4/6                                                 *)
+TraceLoad1 ==
+  /\ IsEvent("load1")
+  /\ ("C19" \in Lens) => (Trace[l].res \in {"ok", "err"} /\ ~Trace[l].nilhandler)
+TraceLH ==
+  /\ IsEvent("lh")
+  /\ ("C19" \in Lens) => (Trace[l].res \in {"reply", "drop", "slow"} /\ Trace[l].n <= 1)   \* "slow": a configured delay, not a crash
+
 TraceInit == l = 1
-TraceNext == TraceSetup \/ TraceH \/ TraceSidChain \/ Deviation_PrefixHugePoolOOM
+TraceNext == TraceSetup \/ TraceH \/ TraceSidChain \/ TraceLoad1 \/ TraceLH \/ Deviation_PrefixHugePoolOOM
 TraceSpec == TraceInit /\ [][TraceNext]_tvars
 
 TraceAccepted ==
